@@ -12,10 +12,10 @@ theorem nodupB_iff : ∀ (l : List Name), nodupB l = true ↔ l.Nodup := by
   | nil => simp [nodupB]
   | cons a as ih => simp [nodupB, ih]
 
-structure Ok (c : Content) : Prop where
+/-- the hypotheses without "variables are plain" -/
+structure OkV (c : Content) : Prop where
   surs : c.surs = []
   data : c.data = []
-  iaV : noIAB c.vars = true
   iaP : noIAB c.pars = true
   num : numCoefs c = true
   nd : ("time" :: (omKeys c.vars ++ omKeys c.pars ++ omKeys c.derived ++ omKeys c.rxns
@@ -25,10 +25,10 @@ structure Ok (c : Content) : Prop where
   onVars : stoichOnVars c = true
   nonempty : c.vars ≠ []
 
-theorem Ok.of_okC {c : Content} (h : okC c = true) : Ok c := by
+theorem OkV.of_okC {c : Content} (h : okC c = true) : OkV c := by
   simp only [okC, Bool.and_eq_true, wellNamed] at h
-  obtain ⟨⟨⟨⟨⟨⟨⟨⟨h1, h2⟩, h3⟩, h4⟩, h5⟩, h6, h7⟩, h8⟩, h9⟩, h10⟩ := h
-  refine ⟨by simpa using h1, by simpa using h2, h3, h4, h5, (nodupB_iff _).mp h6, ?_, h8, h9, ?_⟩
+  obtain ⟨⟨⟨⟨⟨⟨⟨h1, h2⟩, h4⟩, h5⟩, h6, h7⟩, h8⟩, h9⟩, h10⟩ := h
+  refine ⟨by simpa using h1, by simpa using h2, h4, h5, (nodupB_iff _).mp h6, ?_, h8, h9, ?_⟩
   · intro kv hkv
     exact (nodupB_iff _).mp (List.all_eq_true.mp h7 kv hkv)
   · intro hv; simp [hv] at h10
@@ -57,7 +57,7 @@ structure Names (c : Content) : Prop where
   dn_d : ∀ a ∈ (omKeys c.vars).map dName, a ∉ omKeys c.derived
   dn_r : ∀ a ∈ (omKeys c.vars).map dName, a ∉ omKeys c.rxns
 
-theorem Ok.names {c : Content} (h : Ok c) : Names c := by
+theorem OkV.names {c : Content} (h : OkV c) : Names c := by
   have hnd := h.nd
   simp only [List.nodup_cons, List.nodup_append, List.mem_append, not_or] at hnd
   obtain ⟨⟨⟨⟨⟨t1, t2⟩, t3⟩, t4⟩, t5⟩, ⟨⟨⟨v, p, vp⟩, d, vpd⟩, r, vpdr⟩, dn, rest⟩ := hnd
@@ -78,14 +78,7 @@ theorem Ok.names {c : Content} (h : Ok c) : Names c := by
 
 theorem omUnion_nil_right {β} (a : List (Name × β)) : omUnion a [] = a := rfl
 
-theorem toSort_eq {c : Content} (h : Ok c) :
-    c.toSort = omUnion (omUnion [] (c.derived.map fun kv => (kv.1, Comp.fn kv.2)))
-      (c.rxns.map fun kv => (kv.1, Comp.fn kv.2.rate)) := by
-  have h1 := (plainOf_noIA h.iaV).2
-  have h2 := (plainOf_noIA h.iaP).2
-  simp [Content.toSort, h1, h2, h.surs, omUnion_nil_right, omUnion]
-
-theorem containers_eq {c : Content} (h : Ok c) :
+theorem containers_eq {c : Content} (h : OkV c) :
     c.containers = omUnion (omUnion [] (c.derived.map fun kv => (kv.1, Comp.fn kv.2)))
       (c.rxns.map fun kv => (kv.1, Comp.fn kv.2.rate)) := by
   have e : (c.derived.map fun kv => (kv.1, Comp.fn kv.2))
@@ -119,29 +112,16 @@ theorem containers_eq {c : Content} (h : Ok c) :
   rw [hD _ [] (by rw [keys_map_snd Comp.fn]; exact h.names.dNd) (by intro a _; simp)]
   simp
 
-theorem toSort_lookup {c : Content} (h : Ok c) (k : Name) :
-    c.toSort.lookup k = (defOf c k).map Comp.fn := by
+theorem containers_lookup {c : Content} (h : OkV c) (k : Name) :
+    c.containers.lookup k = (defOf c k).map Comp.fn := by
   have hn := h.names
-  rw [toSort_eq h, lookup_omUnion _ _ _ (by rw [keys_map_snd (fun r : Rxn => Comp.fn r.rate)]; exact hn.rNd),
+  rw [containers_eq h, lookup_omUnion _ _ _ (by rw [keys_map_snd (fun r : Rxn => Comp.fn r.rate)]; exact hn.rNd),
     lookup_omUnion _ _ _ (by rw [keys_map_snd Comp.fn]; exact hn.dNd)]
   rw [lookup_map_snd (fun r : Rxn => Comp.fn r.rate), lookup_map_snd Comp.fn]
   unfold defOf
   cases c.rxns.lookup k <;> cases c.derived.lookup k <;> simp
 
-theorem containers_lookup {c : Content} (h : Ok c) (k : Name) :
-    c.containers.lookup k = (defOf c k).map Comp.fn := by
-  rw [containers_eq h, ← toSort_eq h, toSort_lookup h]
-
-theorem toSort_keys {c : Content} (h : Ok c) :
-    (c.toSort.map (·.1)).Nodup ∧ ∀ x, x ∈ c.toSort.map (·.1) ↔ (x ∈ omKeys c.derived ∨ x ∈ omKeys c.rxns) := by
-  rw [toSort_eq h]
-  obtain ⟨h1, h2⟩ := keys_omUnion_nodup (c.derived.map fun kv => (kv.1, Comp.fn kv.2)) [] (by simp)
-  obtain ⟨h3, h4⟩ := keys_omUnion_nodup (c.rxns.map fun kv => (kv.1, Comp.fn kv.2.rate)) _ h1
-  refine ⟨h3, fun x => ?_⟩
-  rw [h4 x, h2 x, keys_map_snd (fun r : Rxn => Comp.fn r.rate), keys_map_snd Comp.fn]
-  simp [omKeys]
-
-theorem defOf_some_of_mem {c : Content} (h : Ok c) {k : Name}
+theorem defOf_some_of_mem {c : Content} (h : OkV c) {k : Name}
     (hk : k ∈ omKeys c.derived ∨ k ∈ omKeys c.rxns) : ∃ f, defOf c k = some f := by
   unfold defOf
   rcases hk with hk | hk
@@ -151,23 +131,12 @@ theorem defOf_some_of_mem {c : Content} (h : Ok c) {k : Name}
   · obtain ⟨r, hr⟩ := lookup_some_of_mem_keys (m := c.rxns) hk
     exact ⟨r.rate, by rw [hr]⟩
 
-/-- facts about the order a successful sort returns -/
-theorem order_facts {c : Content} (h : Ok c) {order : List Name}
-    (hs : sortDeps c.available c.deps = .ok order) :
-    order.Nodup ∧ (∀ k, k ∈ order ↔ (k ∈ omKeys c.derived ∨ k ∈ omKeys c.rxns)) := by
-  have hp := sortDeps_perm hs
-  have hnames : c.deps.map (·.name) = c.toSort.map (·.1) := by
-    simp [Content.deps, List.map_map, Function.comp_def]
-  rw [hnames] at hp
-  obtain ⟨h1, h2⟩ := toSort_keys h
-  exact ⟨hp.nodup_iff.mpr h1, fun k => by rw [hp.mem_iff, h2 k]⟩
-
 /-! ### the order as a list of function definitions -/
 
 def defsOf (c : Content) (o : List Name) : List (Name × Fn) :=
   o.filterMap fun k => (defOf c k).map fun f => (k, f)
 
-theorem mapM_defOf {c : Content} (h : Ok c) : ∀ {o : List Name},
+theorem mapM_defOf {c : Content} (h : OkV c) : ∀ {o : List Name},
     (∀ k ∈ o, k ∈ omKeys c.derived ∨ k ∈ omKeys c.rxns) →
     o.mapM (fun k => (defOf c k).map fun f => (k, f)) = some (defsOf c o) ∧ (defsOf c o).map (·.1) = o := by
   intro o; induction o with
@@ -181,7 +150,7 @@ theorem mapM_defOf {c : Content} (h : Ok c) : ∀ {o : List Name},
     · simp only [defsOf, List.filterMap_cons, hf, Option.map_some, List.map_cons] at h2 ⊢
       rw [h2]
 
-theorem evalInOrder_defs {c : Content} (h : Ok c) (ts : List (Name × Comp))
+theorem evalInOrder_defs {c : Content} (h : OkV c) (ts : List (Name × Comp))
     (hts : ∀ k, ts.lookup k = (defOf c k).map Comp.fn) {o : List Name}
     (ho : ∀ k ∈ o, k ∈ omKeys c.derived ∨ k ∈ omKeys c.rxns) (env : Env) :
     evalInOrder ts o env = evalSeq (defsOf c o) env := by
@@ -222,7 +191,7 @@ theorem target_id {L : Lang} (hL : L ≠ .jl) (k : Name) : (templateOf L).target
     cases L <;> first | (exact absurd rfl hL) | decide
   simp [Template.target, this]
 
-theorem emitBody_nil {c : Content} (h : Ok c) : ∀ (o : List Name),
+theorem emitBody_nil {c : Content} (h : OkV c) : ∀ (o : List Name),
     emitBody [] c o = .ok ((defsOf c o).map fun kf => (kf.1, Rhs.app kf.2)) := by
   intro o; induction o with
   | nil => rfl
